@@ -117,7 +117,7 @@ def at_scale_case(ctx, g, rng):
 
 
 def run_case(ctx, g, rng):
-    if g % 89 == 89 - 1:
+    if g % (89 if ctx.tier == "quick" else 709) == 88:
         return at_scale_case(ctx, g, rng)
     api, S = ctx.api, probe.S
     n = rng.choice([1, 2, 2, 3, 3, 4])
